@@ -93,10 +93,13 @@ theorem tsStr_numTok (t : Ts) (h : tsOK t = true) : floatTok (OMExpo.tsStr t) = 
       · cases nsec with
         | ofNat k => exact zpad_num 9 _ (decDigits_num k) c hc
         | negSucc k =>
-          simp only [List.mem_cons] at hc
-          rcases hc with rfl | hc
-          · decide
-          · exact zpad_num 8 _ (decDigits_num (k + 1)) c hc
+          simp only [] at hc
+          split at hc
+          · exact zpad_num 9 _ (decDigits_num (k + 1)) c hc
+          · simp only [List.mem_cons] at hc
+            rcases hc with rfl | hc
+            · decide
+            · exact zpad_num 8 _ (decDigits_num (k + 1)) c hc
 
 /-- the text format's millisecond timestamp, from the state after the value -/
 theorem run_text_ts (m : Int) : run false .v (' ' :: intStr m) = .t := by
